@@ -1,7 +1,7 @@
 #!/usr/bin/env python3
 """False-alarm sweep on the unchanged tree: every check's correspondence half (--no-proof) under several VERIF_SEED
 values, side by side (evidence and replays diverted with VERIF_OUT, a development switch).  Any VIOLATION line is a
-false alarm (or a new finding) to investigate.   seedsweep.py [--seeds=1,2,3] [--jobs=8] [--tier=quick] [Cxx ...]"""
+false alarm (or a new finding) to investigate.   seedsweep.py [--seeds=1,2,3] [--jobs=8] [--tier=quick] [--with-proof] [Cxx ...]"""
 import json
 import os
 import subprocess
@@ -16,6 +16,7 @@ def main():
     seeds = next((a.split("=", 1)[1].split(",") for a in sys.argv[1:] if a.startswith("--seeds=")), ["1", "2", "3"])
     jobs = int(next((a.split("=", 1)[1] for a in sys.argv[1:] if a.startswith("--jobs=")), "8"))
     tier = next((a.split("=", 1)[1] for a in sys.argv[1:] if a.startswith("--tier=")), "quick")
+    noproof = "" if "--with-proof" in sys.argv else " --no-proof"     # --with-proof: the registered command as it is
     base = f"/tmp/seedsweep-{os.getpid()}"
     work = [(p, s) for s in seeds for p in props]
     bad = []
@@ -23,7 +24,7 @@ def main():
     def one(ps):
         p, s = ps
         env = dict(os.environ, VERIF_SEED=s, VERIF_OUT=f"{base}/{p}-{s}", VERIF_TIER=tier)
-        r = subprocess.run(f"/venv/bin/python harness/check.py {p} --tier {tier} --no-proof", shell=True, cwd=VERIF,
+        r = subprocess.run(f"/venv/bin/python harness/check.py {p} --tier {tier}{noproof}", shell=True, cwd=VERIF,
                            capture_output=True, text=True, env=env, timeout=14000)
         viol = [l for l in r.stdout.splitlines() if l.startswith("VIOLATION")]
         detail = [l.strip() for l in r.stdout.splitlines() if l.startswith("  ")][:2]
